@@ -85,6 +85,7 @@ type knownFinding struct {
 	Harness  string            `json:"harness,omitempty"`
 	Label    string            `json:"label,omitempty"`
 	Where    map[string]uint64 `json:"where,omitempty"` // model values that identify the finding
+	MsgHas   string            `json:"msg_contains,omitempty"`
 	Commit   string            `json:"commit,omitempty"`
 	What     string            `json:"what"`
 }
@@ -107,6 +108,9 @@ func (k *knownFinding) matches(prop, harness string, v *interp.Violation) bool {
 		return false
 	}
 	if k.Label != "" && k.Label != v.Label {
+		return false
+	}
+	if k.MsgHas != "" && !strings.Contains(v.Msg, k.MsgHas) {
 		return false
 	}
 	for name, val := range k.Where {
@@ -242,6 +246,9 @@ func cmdCheck(args []string) int {
 		if v, ok := hm.Opts["sample"]; ok {
 			o.SampleEvery = int(v)
 		}
+		if v, ok := hm.Opts["maxviol"]; ok {
+			o.MaxViolations = int(v)
+		}
 		hr := pool.Run(h, o)
 		fmt.Fprintf(os.Stderr, "[%s] paths=%d %v decisions=%d asserts=%d/%d unk=%d wall=%.1fs solver=%.1fs\n",
 			hm.Name, hr.Paths, hr.Outcomes, hr.Decisions, hr.AssertsOK, hr.AssertsOK+hr.AssertsUnk, hr.Unknowns, hr.Wall, hr.Solver.Seconds)
@@ -272,11 +279,19 @@ func cmdCheck(args []string) int {
 		groups := map[string]*group{}
 		var order []string
 		for _, v := range hr.Violations {
-			g := groups[v.Label]
+			gk := v.Label
+			if v.Label == "panic" || v.Label == "crash" {
+				m := v.Msg
+				if len(m) > 90 {
+					m = m[:90]
+				}
+				gk = v.Label + "|" + m
+			}
+			g := groups[gk]
 			if g == nil {
 				g = &group{}
-				groups[v.Label] = g
-				order = append(order, v.Label)
+				groups[gk] = g
+				order = append(order, gk)
 			}
 			if len(g.vs) < 3 {
 				g.vs = append(g.vs, v)
@@ -284,21 +299,24 @@ func cmdCheck(args []string) int {
 		}
 		for _, label := range order {
 			g := groups[label]
-			var cases []nativeCase
-			for _, v := range g.vs {
-				cases = append(cases, nativeCase{Harness: hm.Name, Model: v.Model, Tier: tier})
-			}
-			res, err := runNative(repo, verif, hm.Dir, cases, 20*time.Second)
-			if err != nil {
-				inconclusive = append(inconclusive, fmt.Sprintf("%s: native replay failed: %v", hm.Name, err))
-				continue
-			}
 			confirmed := -1
+			var res []nativeResult
+			var rerr error
 			for k := range g.vs {
-				if confirms(&g.vs[k], res[k]) {
+				var r1 []nativeResult
+				r1, rerr = runNative(repo, verif, hm.Dir, []nativeCase{{Harness: hm.Name, Model: g.vs[k].Model, Tier: tier}}, 20*time.Second)
+				if rerr != nil {
+					break
+				}
+				res = append(res, r1[0])
+				if confirms(&g.vs[k], r1[0]) {
 					confirmed = k
 					break
 				}
+			}
+			if rerr != nil {
+				inconclusive = append(inconclusive, fmt.Sprintf("%s: native replay failed: %v", hm.Name, rerr))
+				continue
 			}
 			if confirmed < 0 {
 				inconclusive = append(inconclusive, fmt.Sprintf("%s: SPURIOUS counterexample for %q (native outcome %s %v %s); model %v",
